@@ -868,6 +868,10 @@ fn generate(rng: &mut Rng, tier: &str, w: &mut CaseWriter) {
     gen_all(rng, false, 4, w);
 }
 
+fn fixed_dummy() -> Rng {
+    Rng::new(0x00C1_5B0A)
+}
+
 fn gen_all(rng: &mut Rng, thorough: bool, div: u64, w: &mut CaseWriter) {
     let q = |x: u64| (x / div).max(1);
     {
@@ -890,6 +894,60 @@ fn gen_all(rng: &mut Rng, thorough: bool, div: u64, w: &mut CaseWriter) {
                 col.pop();
             }
             w.push("gffit", vec![hex(&col)]);
+        }
+    }
+    {
+        // bam read_record validate boundary (modelled, NV.Hostile.BamAcc): bodies whose length sits
+        // at, one below and one above every slice end of record_ref.rs, odd and even l_seq
+        let mk = |ln: u8, nc: u16, ls: u32, tail: &[u8]| -> Vec<u8> {
+            let mut b = vec![0xff, 0xff, 0xff, 0xff, 0xff, 0xff, 0xff, 0xff, ln, 0xff, 0x48, 0x12];
+            b.extend_from_slice(&nc.to_le_bytes());
+            b.extend_from_slice(&[4, 0]);
+            b.extend_from_slice(&ls.to_le_bytes());
+            b.extend_from_slice(&[0xff; 8]);
+            b.extend_from_slice(&[0, 0, 0, 0]);
+            b.extend_from_slice(tail);
+            b
+        };
+        let emit = |w: &mut CaseWriter, rng: &mut Rng, ln: u8, nc: u16, ls: u32, total: usize, style: u64| {
+            let tail: Vec<u8> = (0..total).map(|i| match style {
+                0 => 0xff,
+                1 => 0,
+                2 => [b'*', 0, 0x14, 0, 0, 0, 0x73, 0x02, b'C', b'G', b'B', b'I', 1, 0, 0, 0][i % 16],
+                _ => rng.below(256) as u8,
+            }).collect();
+            w.push("bamv", vec![hex(&mk(ln, nc, ls, &tail))]);
+        };
+        if div == 1 {
+            w.push("bamv", vec!["_".to_string()]);
+            for n in [1usize, 4, 31] {
+                w.push("bamv", vec![hex(&vec![0u8; n])]);
+            }
+            for ln in [0u8, 1, 2] {
+                for nc in [0u16, 1, 2] {
+                    for ls in [0u32, 1, 2, 3, 4, 5] {
+                        let end = ln as usize + 4 * nc as usize + (ls as usize).div_ceil(2) + ls as usize;
+                        for d in -2i64..=2 {
+                            let total = end as i64 + d;
+                            if total >= 0 {
+                                emit(w, &mut fixed_dummy(), ln, nc, ls, total as usize, (ln as u64 + nc as u64 + ls as u64) % 4);
+                            }
+                        }
+                    }
+                }
+            }
+            for ls in [0xffff_ffffu32, 0x8000_0000, 0x7fff_ffff, 65536] {
+                emit(w, &mut fixed_dummy(), 1, 0, ls, 3, 1);
+            }
+        }
+        for _ in 0..q(if thorough { 4000 } else { 300 }) {
+            let ln = *rng.pick(&[0u8, 1, 2, 3, 7, 255]);
+            let nc = *rng.pick(&[0u16, 0, 1, 2, 2, 3]);
+            let ls = rng.below(12) as u32;
+            let end = ln as i64 + 4 * nc as i64 + (ls as i64 + 1) / 2 + ls as i64;
+            let total = (end + rng.below(7) as i64 - 3 + if rng.chance(1, 4) { rng.below(24) as i64 } else { 0 }).max(0);
+            let style = rng.below(4);
+            emit(w, rng, ln, nc, ls, total as usize, style);
         }
     }
     {
@@ -1591,6 +1649,41 @@ fn run_gffit(col: Vec<u8>) -> Obs {
     }
 }
 
+/// ONE bam::io::Reader::read_record call on block_size = |body| + body, then the raw lazy accessors
+/// of the bam::Record it filled (model: NV.Hostile.BamAcc.read_record_view). A panic is a failure.
+fn run_bamv(body: Vec<u8>) -> Obs {
+    use noodles_bam as bam;
+    let shown = hex(&body);
+    let ran = watchdog(move || {
+        let mut data = (body.len() as u32).to_le_bytes().to_vec();
+        data.extend_from_slice(&body);
+        let mut r = bam::io::Reader::from(&data[..]);
+        let mut rec = bam::Record::default();
+        match r.read_record(&mut rec) {
+            Ok(0) => "Eof".to_string(),
+            Err(e) => format!("Err:{}", nv::errkind(&e)),
+            Ok(_) => {
+                let hx = |b: &[u8]| if b.is_empty() { "-".to_string() } else { hex(b) };
+                let name = rec.name().map(|n| hx(n)).unwrap_or_else(|| "*".to_string());
+                let cigar = hx(rec.cigar().as_bytes());
+                let seq = hx(&rec.sequence().iter().collect::<Vec<u8>>());
+                let qual = hx(rec.quality_scores().as_bytes());
+                let dat = hx(rec.data().as_bytes());
+                format!("Ok {name} {cigar} {seq} {qual} {dat}")
+            }
+        }
+    });
+    match ran {
+        Ran::Done(s) => Obs::ok(s, true),
+        Ran::Panic { file, line, msg } => {
+            let tag = site_tag("bam", &file, line, &msg);
+            Obs::fail("Panic", &tag, format!("{file}:{line}: {msg} | bamv {shown}"))
+        }
+        Ran::Hang(_) => Obs::fail("Hang", "hang-bam-read-record", format!("bamv {shown}")),
+        Ran::TooLarge(n, _) => Obs::fail("TooLarge", "alloc-bam", format!("{n} bytes | bamv {shown}")),
+    }
+}
+
 /// CRAM resolve_mates on arbitrary cram flags / mate distances through a sealed container
 /// (model: NV.Hostile.MatesP.resolve_view_series)
 fn run_cmate(arg: String) -> Obs {
@@ -1754,6 +1847,7 @@ fn run(c: &Case) -> Obs {
         "rfreq" => run_rfreq(c.b(0)),
         "gffit" => run_gffit(c.b(0)),
         "cmate" => run_cmate(c.args[0].clone()),
+        "bamv" => run_bamv(if c.args[0] == "_" { Vec::new() } else { c.b(0) }),
         "nest" => run_nest(c.args[0].clone(), c.args[1].clone(), c.u(2) as usize),
         k => Obs::fail("-", "harness-unknown-kind", k),
     }
